@@ -168,6 +168,9 @@ func runConsole(cfg *config) {
 			// semicolon inside a comment ends nothing
 			lc := "DELETE FROM t // the test rows\nWHERE a < 10;"
 			cases = append(cases, consoleCase{expect: []string{lc}, keys: []rune(strings.ReplaceAll(lc, "\n", "\r") + "\r")})
+			// ... but the same characters inside a literal are text
+			inlit := "INSERT INTO t VALUES ('http://x/*y*/; z // w');"
+			cases = append(cases, consoleCase{expect: []string{inlit, "SELECT 2;"}, keys: []rune(inlit + "\rSELECT 2;\r")})
 			bc := "INSERT INTO t VALUES (1) /* ; INSERT INTO t VALUES (2); */;"
 			cases = append(cases, consoleCase{expect: []string{bc}, keys: []rune(bc + "\r")})
 			// a TAB typed (pasted) inside a literal belongs to the literal
